@@ -95,3 +95,5 @@ LEVEL = {
 }
 
 CFG['rule'] = CFG['rule'] + ' ' + 'Closing a server also shuts the RPC clients the other nodes have cached for it (what a process death leaves behind); the first search / update / search after a close go through the same entry node as before it, then the history switches to a node without cached clients.'
+
+CFG['rule'] = CFG['rule'] + ' ' + "The stream on curateFailedPoints has requests of distinct ids with 0..70 processed ones (15/16/17, 31/32/33, 63/64/65 over-weighted) in arbitrary order. The nodes' shard-manager root differs from the node root."
